@@ -104,6 +104,16 @@ example : GA.Iter.Inv ⟨[10, 11, 12, 13, 14], 1, 4⟩ := by unfold GA.Iter.Inv;
 example : (run (Iter.ofList [10, 11, 12, 13, 14]) [.nth 1, .nextBack, .nthBack 5, .next]).1 =
     [.item (some 11), .item (some 14), .item none, .item none] := by decide
 
+/-- the index arithmetic of `next`, `nth`, `fold` never wraps around the machine word — for every
+    argument, `usize::MAX` included — so the unbounded-`Nat` model above is the code's arithmetic -/
+theorem index_arithmetic_never_wraps (it : Iter) (h : Inv it) (hN : it.slots.length < 18446744073709551616) (n : Nat) :
+    Gen.Iter.nthNextNoOvf it.front it.back n = true ∧ Gen.Iter.nthDropHiNoOvf it.front it.back n = true ∧
+    (it.front < it.back → Gen.Iter.nextAdvNoOvf it.front = true ∧ Gen.Iter.foldAdvNoOvf it.front = true) := by
+  obtain ⟨h1, h2⟩ := h
+  have hb : it.back < 18446744073709551616 := by omega
+  exact ⟨Bridge.Iter.nthNextNoOvf_of _ _ _ h1 hb, Bridge.Iter.nthDropHiNoOvf_of _ _ _ h1 hb,
+    fun hlt => ⟨Bridge.Iter.nextAdvNoOvf_of _ _ hlt hb, Bridge.Iter.foldAdvNoOvf_of _ _ hlt hb⟩⟩
+
 end GA.Props.C06
 
 #print axioms GA.Props.C06.run_refines
@@ -114,3 +124,4 @@ end GA.Props.C06
 #print axioms GA.Props.C06.front_back_disjoint
 #print axioms GA.Props.C06.clone_same_remaining
 #print axioms GA.Props.C06.debug_shows_remaining
+#print axioms GA.Props.C06.index_arithmetic_never_wraps
